@@ -65,7 +65,7 @@ from predicate.tuple_of_predicate import TupleOfPredicate  # noqa: E402
 
 NONE_CODE = 100000
 STR_BASE = 200000
-STR_POOL = ["", "a", "ab", "b", "bar", "foo", "z"]  # sorted; "" has code STR_BASE
+STR_POOL = ["", "10", "9", "a", "ab", "b", "bar", "foo", "z"]  # sorted; "" has code STR_BASE; "10" < "9": print like the numbers, ordered differently
 assert STR_POOL == sorted(STR_POOL)
 
 
@@ -73,7 +73,55 @@ class Unliftable(Exception):
     pass
 
 
+TWIN = False  # twin mode: small non-negative numeric constants are lowered as the *strings* that print the same
+
+
+class twin:
+    """with lift.twin(): ... -- lower / lift in twin mode.  The digit strings "0".."9" (and "2.5" etc.) are ordered like
+    the numbers they spell, so a twin tree is the same tree over an order-isomorphic set of constants of another type:
+    everything the library does through ==, <, hashing must come out isomorphic (the Lean model is generic in the
+    constant type).  What twin mode catches: anything keyed on how a constant *prints* (caches keyed by repr, str())."""
+
+    def __enter__(self):
+        global TWIN
+        self.old, TWIN = TWIN, True
+
+    def __exit__(self, *a):
+        global TWIN
+        TWIN = self.old
+
+
+def _twin_str(c: int):
+    """the string twin of a numeric code, or None when the code has none (negative, > 9, not a number)"""
+    if 0 <= c <= 19:
+        return str(c // 2) if c % 2 == 0 else str(c / 2)
+    return None
+
+
+_TWIN_BACK = {_twin_str(c): c for c in range(0, 20)}
+
+
+def twinnable(sx) -> bool:
+    """every constant of the case has a string twin (or is not numeric at all)"""
+    from . import sx as S
+
+    for t in S.subterms(sx):
+        if isinstance(t, tuple) and t and t[0] in ("eq", "ne", "ge", "gt", "le", "lt", "gele", "gelt", "gtle", "gtlt", "in", "notin", "subset", "rsubset", "superset", "rsuperset"):
+            for c in t[1:]:
+                try:
+                    k = int(c)
+                except (TypeError, ValueError):
+                    return False
+                if k < STR_BASE and k != NONE_CODE and _twin_str(k) is None:
+                    return False
+                if k >= STR_BASE and STR_POOL[k - STR_BASE] in _TWIN_BACK:  # a pool string that is itself a digit string
+                    return False
+    return True
+
+
 def encode_const(v) -> int:
+    if TWIN and isinstance(v, str) and v in _TWIN_BACK:
+        return _TWIN_BACK[v]
     if v is None:
         return NONE_CODE
     if isinstance(v, bool):
@@ -95,6 +143,8 @@ def encode_const(v) -> int:
 
 
 def decode_const(c: int):
+    if TWIN and _twin_str(c) is not None:
+        return _twin_str(c)
     if c == NONE_CODE:
         return None
     if c >= STR_BASE:
